@@ -138,6 +138,14 @@ def run(ctx):
         canonical = inject_of(g.schema(), g)
         cfg = g.config()
         docs = [g.doc_for(canonical, p_present=0.75) for _ in range(2)]
+        if rng.random() < 0.3:
+            # some sub-schemas / rule sets are registry references (validator-bound registries, shared by canonical and variant)
+            import refs
+            pos = refs.referenceable(canonical)
+            if pos:
+                canonical, rdefs, sdefs = refs.substitute(canonical, rng.sample(pos, rng.randrange(1, min(3, len(pos)) + 1)))
+                cfg["rules_set_registry"], cfg["schema_registry"] = refs.make_registries(rdefs, sdefs)
+                dist["with_references"] += 1
         cobs = observe(canonical, cfg, docs)
         if cobs["accepted"] is not True:
             dist["canonical_rejected"] += 1
